@@ -343,7 +343,7 @@ EVENT_FIELDS = {
     'get': _COMMON + ('n',), 'set': _COMMON + ('n', 'v'), 'delete': _COMMON + ('n',), 'append': _COMMON + ('n', 'v'),
     'set_headers': _COMMON + ('items', 'asdict'), 'typed': _COMMON + ('p', 'a', 'law'), 'typed_get': _COMMON + ('p',),
     'link': _COMMON + ('link', 'law'), 'set_cookie': _COMMON + ('ck', 'ca', 'vcps'),
-    'unset_cookie': _COMMON + ('ck', 'ua', 't0', 't1'),
+    'unset_cookie': _COMMON + ('ck', 'ua', 't0', 't1'), 'set_option': _COMMON + ('flag',),
 }
 
 
@@ -377,7 +377,7 @@ def bulk_argument(items, form):
 
 def call(op, **kw):
     c = {'op': op, 'n': NONAME, 'v': '', 'items': [], 'asdict': False, 'p': '', 'a': NOARG, 'link': NOLINK, 'text': '',
-         'ck': '', 'ca': NOCA, 'ua': NOUA}
+         'ck': '', 'ca': NOCA, 'ua': NOUA, 'flag': False}
     c.update(kw)
     return c
 
@@ -475,6 +475,9 @@ def _do(resp, c, ev):
                 resp.set_cookie(c['ck'], c['ca']['value'], **cookie_kwargs(c['ca']))
             except ValueError:          # documented: "`value` is not a valid cookie value" (not ASCII)
                 ev['err'] = True
+        elif op == 'set_option':
+            # the application changes the option mid-request (resp.options is app.resp_options)
+            resp.options.secure_cookies_by_default = c['flag']
         elif op == 'unset_cookie':
             ev['t0'] = int(time.time())
             kw = {k: c['ua'][k] for k in ('domain', 'path') if c['ua'][k]}
@@ -537,6 +540,7 @@ def execute(iface, sd, calls, media='application/json', tz='UTC'):
 
 def _execute(iface, sd, calls, media):
     app, res = _app(iface, sd, media)
+    app.resp_options.secure_cookies_by_default = sd       # a history may have changed it ('set_option')
     evs = []
 
     def script(req, resp):
@@ -936,8 +940,10 @@ def random_history(rng):
             calls.append(call('typed_get', p=rtyped(rng)[0]))
         elif t < 0.80:
             calls.append(call('link', link=rlink(rng)))
-        elif t < 0.94:
+        elif t < 0.90:
             calls.append(call('set_cookie', ck=rng.choice(R_COOKIE_NAMES), ca=rcookie(rng)))
+        elif t < 0.94:
+            calls.append(call('set_option', flag=rng.random() < 0.5))
         else:
             calls.append(call('unset_cookie', ck=rng.choice(R_COOKIE_NAMES),
                               ua={'samesite': rng.choice(['Lax', 'Lax', 'Strict', 'None']), 'domain': rng.choice(R_DOMAINS),
@@ -1014,13 +1020,14 @@ def run(ctx):
     r = ctx.tlc('MC_RespHeaders', ctx.pick('MC_RespHeaders.cfg', 'MC_RespHeadersT.cfg'), coverage=True, workers=ctx.pick(8, 16),
                 timeout=1500)
     ctx.require_coverage(r, ['XGet', 'XSet', 'XDelete', 'XAppend', 'XSetHeaders', 'XSetTyped', 'XGetTyped', 'XAppendLink',
-                             'XSetCookie', 'XUnsetCookie', 'XEmitWsgi', 'XEmitAsgi'])
+                             'XSetCookie', 'XUnsetCookie', 'XEmitWsgi', 'XEmitAsgi', 'XSetOption'])
     ctx.exhaustive = True
     wrong = {}
     for name, inv in (('NoLower', {'XReadBackIsMap', 'EmitOncePerPlainHeader', 'AsgiNamesLower'}),
                       ('NoGuard', {'NoSetCookieInMap', 'OneLinePerCookieAndRawCookie'}),
                       ('Morsel', {'CookieExactAttrs', 'UnsetExpires', 'SecureDefaultsFromOption'}),
-                      ('NoSecDef', {'CookieExactAttrs', 'SecureDefaultsFromOption'})):
+                      ('NoSecDef', {'CookieExactAttrs', 'SecureDefaultsFromOption'}),
+                      ('Snapshot', {'CookieExactAttrs', 'SecureDefaultsFromOption'})):
         rw = ctx.tlc('MC_RespHeaders', 'MC_RespHeaders_%s.cfg' % name, must_hold=False, count=False, workers=4, timeout=300)
         if rw.violated not in inv:
             raise MachineryError('wrong design %s should violate one of %s, TLC says %r' % (name, sorted(inv), rw.violated))
